@@ -53,6 +53,12 @@ func c02MarkTable(e *Env, s *Sched) {
 			nodeParam = p
 		}
 	}
+	type markCase struct {
+		ev   ir.StoreEvent
+		k    int64
+		lits []ir.NLit
+	}
+	var cases []markCase
 	for _, ev := range s.events(e.inlinedSet(fn, nil)) {
 		pos := e.InstrPos(ev.Site)
 		k, isConst := s.constOf(ev)
@@ -61,11 +67,33 @@ func c02MarkTable(e *Env, s *Sched) {
 				"isReady changes the status of "+e.C.Render(ev.Root)+" (the dependency?) instead of the dependent being tested")
 			continue
 		}
-		if !isConst {
-			r.Unknown("isReady: non-constant status mark", pos, "value written: "+e.C.Render(ev.Val))
+		if isConst {
+			cases = append(cases, markCase{ev, k, e.DCS(ev.Site)})
 			continue
 		}
-		lits := e.DCS(ev.Site)
+		// the mark chosen by a classifier helper (`blocked, mark, cause := verdict(dep)`):
+		// one case per return of the helper, with the conditions of that return
+		split := false
+		if c, idx, ok := e.helperOf(ir.Deep(ev.Val)); ok {
+			if alts, ok := e.splitOnCall(c, e.DCS(ev.Site)); ok {
+				split = true
+				for _, a := range alts {
+					kv, isC := ir.ConstInt(a.Results[idx])
+					if a.Results[idx] == nil || !isC {
+						split = false
+						break
+					}
+					cases = append(cases, markCase{ev, kv, a.Lits})
+				}
+			}
+		}
+		if !split {
+			r.Unknown("isReady: non-constant status mark", pos, "value written: "+e.C.Render(ev.Val))
+		}
+	}
+	for _, mc := range cases {
+		ev, k, lits := mc.ev, mc.k, mc.lits
+		pos := e.InstrPos(ev.Site)
 		var depRoot ssa.Value
 		isDepStatus := func(v ssa.Value) bool {
 			p, ok := e.C.PathOf(v)
@@ -234,19 +262,54 @@ func c02FailLabel(e *Env, s *Sched) {
 			if nl.Kind != "cmp" || !ir.IsNilConst(nl.Y) {
 				continue
 			}
-			c, ok := ir.Resolve(nl.X).(*ssa.Call)
-			if !ok || c.Call.StaticCallee() == nil || c.Parent() != w {
+			// the tested value: the call's result, directly or as the only non-nil
+			// alternative of a variable (`var err error; if !dry { err = exec() }`)
+			var c *ssa.Call
+			if ls := nonNilLeaves(nl.X); len(ls) == 1 {
+				c, _ = ls[0].(*ssa.Call)
+			}
+			if c == nil || c.Call.StaticCallee() == nil || c.Parent() != w {
 				continue
 			}
 			if !e.ReachesRepo(c.Call.StaticCallee(), func(x *ssa.Function) bool { return x == s.Execute }) {
 				continue
+			}
+			// a test of an error that a helper of the worker hands back after having
+			// tested (and handled) it itself is not the place where the failure is
+			// labelled: the innermost test is
+			if g := c.Call.StaticCallee(); g != nil && s.inWorker(g) && g != s.Execute {
+				inner := false
+				for _, h := range e.withPkgHelpers(g) {
+					if !s.inWorker(h) {
+						continue
+					}
+					for _, hb := range h.Blocks {
+						hi, isIf := hb.Instrs[len(hb.Instrs)-1].(*ssa.If)
+						if !isIf {
+							continue
+						}
+						hn := ir.Normalize(ir.Lit{Cond: hi.Cond, Pol: true})
+						if hn.Kind != "cmp" || !ir.IsNilConst(hn.Y) {
+							continue
+						}
+						if ls := nonNilLeaves(hn.X); len(ls) == 1 {
+							if hc, isC := ls[0].(*ssa.Call); isC && hc.Parent() == h && hc.Call.StaticCallee() != nil &&
+								e.ReachesRepo(hc.Call.StaticCallee(), func(x *ssa.Function) bool { return x == s.Execute }) {
+								inner = true
+							}
+						}
+					}
+				}
+				if inner {
+					continue
+				}
 			}
 			// only the first test of this result (the one dominating the others)
 			first := true
 			for _, ob := range w.Blocks {
 				if oi, ok := ob.Instrs[len(ob.Instrs)-1].(*ssa.If); ok && ob != b {
 					on := ir.Normalize(ir.Lit{Cond: oi.Cond, Pol: true})
-					if on.Kind == "cmp" && ir.Resolve(on.X) == ssa.Value(c) && ob.Dominates(b) {
+					if on.Kind == "cmp" && ir.Resolve(on.X) == ir.Resolve(nl.X) && ob.Dominates(b) {
 						first = false
 					}
 				}
